@@ -976,6 +976,8 @@ pub fn gen_c08_a(ctx: &Ctx, run: u64) -> ScenarioA {
 
 #[derive(Clone, Debug)]
 pub struct C09Plan {
+    /// a deep target: its crash points are thinned harder (each execution is expensive)
+    pub deep: bool,
     pub base: ScenarioB,
     /// index of the search that is cancelled
     pub target: usize,
@@ -1008,11 +1010,13 @@ pub fn gen_c09(ctx: &Ctx, run: u64) -> C09Plan {
     // with the shipped interval, sometimes a deep search of a small ending (pruning and verification
     // paths that only exist at high remaining depth)
     let mut target_depth = target_depth;
-    if poll_interval.is_none() && rng.chance(1, 3) {
+    let mut deep = false;
+    if poll_interval.is_none() && rng.chance(1, 8) {
+        deep = true;
         let endings: Vec<&str> = super::corpus::all().into_iter().filter(|f| f.split(' ').next().unwrap().chars().filter(|c| c.is_alphabetic()).count() <= 9).collect();
         fen = Some(rng.pick(&endings).to_string());
         moves = vec![];
-        target_depth = rng.range(9, 11) as u8;
+        target_depth = rng.range(9, 10) as u8;
     }
     // the cancelled search runs under each kind of limit (depth only / fixed move time / clocks, the
     // time limits far in the future), and the cancellation reaches it through the stop flag or —
@@ -1074,7 +1078,7 @@ pub fn gen_c09(ctx: &Ctx, run: u64) -> C09Plan {
         third.clock_events.clear();
         steps.push(third);
     }
-    C09Plan { base: ScenarioB { initial_hash_mb, poll_interval, tau_ps, clock_read_step_ns: gen_read_step(&mut rng), steps }, target, via_clock }
+    C09Plan { deep, base: ScenarioB { initial_hash_mb, poll_interval, tau_ps, clock_read_step_ns: gen_read_step(&mut rng), steps }, target, via_clock }
 }
 
 /// The scenario with the cancellation placed at poll k of the target search.
@@ -1130,14 +1134,16 @@ pub fn run_c09(ctx: &Ctx, run: u64) -> RunReport {
     rep.agg.add("c09.polls_of_unstopped_targets", k_total);
     rep.agg.max("max.c09_polls_per_target", k_total);
     // 2. every k = 1 … K (all of them up to the cap, evenly thinned beyond it)
-    let ks: Vec<u64> = if k_total <= C09_MAX_K {
+    let max_k = if plan.deep { 48 } else { C09_MAX_K };
+    let ks: Vec<u64> = if k_total <= max_k {
         (1..=k_total).collect()
     } else {
         rep.agg.add("c09.scenarios_with_thinned_enumeration", 1);
-        let mut v: Vec<u64> = (1..=64).collect();
-        let rest = C09_MAX_K - 64;
+        let head = max_k * 2 / 5;
+        let mut v: Vec<u64> = (1..=head).collect();
+        let rest = max_k - head;
         for j in 0..rest {
-            v.push(65 + j * (k_total - 65) / rest.max(1));
+            v.push(head + 1 + j * (k_total - head - 1) / rest.max(1));
         }
         v.push(k_total);
         v.sort();
